@@ -38,8 +38,11 @@ TICK = 4.0
 
 
 class Assembly:
-    def __init__(self, loop, cap, r, d):
+    def __init__(self, loop, cap, r, d, acl=True):
         self.loop = loop
+        # (without the access-control component the second address is a neighbour of the first: identities that are cut
+        #  short or merged then share an allowance)
+        self.addr = dict(ADDR) if acl else dict(ADDR, b="10.0.0.2")
         self.root = tempfile.mkdtemp(prefix="vf-chain-")
         for sub in ("pub", "prot", "any"):
             os.makedirs(os.path.join(self.root, sub))
@@ -69,10 +72,7 @@ capacity = %d
 refill_rate = %r
 retry_after = 9
 
-[access_control]
-enabled = true
-deny_list = ["10.0.0.4"]
-default_allow = true
+%s
 
 [[certificate_auth.paths]]
 prefix = "/prot/"
@@ -82,7 +82,8 @@ allowed_fingerprints = ["%s"]
 [[certificate_auth.paths]]
 prefix = "/any/"
 require_cert = true
-""" % (self.root, self.srv_cert.certfile, self.srv_cert.keyfile, cap, r / (d * TICK), fp1)
+""" % (self.root, self.srv_cert.certfile, self.srv_cert.keyfile, cap, r / (d * TICK),
+       '[access_control]\nenabled = true\ndeny_list = ["10.0.0.4"]\ndefault_allow = true\n' if acl else '[access_control]\nenabled = false\n', fp1)
         p = os.path.join(self.root, "config.toml")
         with open(p, "w") as f:
             f.write(toml)
@@ -118,7 +119,7 @@ require_cert = true
     def request(self, ip, path, cert):
         """One TLS session in memory from peer address ip; returns the status the client received."""
         proto = self.factory()
-        tr = FakeTransport(self.loop, proto, peername=(ADDR[ip], 50000), tls=False, auto_lost=True)
+        tr = FakeTransport(self.loop, proto, peername=(self.addr[ip], 50000), tls=False, auto_lost=True)
         self.loop.call(proto.connection_made, tr)
         if cert == "c2":
             self.nreq = getattr(self, "nreq", 0) + 1
@@ -183,7 +184,11 @@ def main(pid="C04", rep=None, finish=True):
         steps = 0
         for beh in behs:
             with virtual([mwmod]) as loop:
-                asm = Assembly(loop, 2, 1, 4)
+                # for C10 every other behaviour in which the denied address never asks runs WITHOUT the access-control component:
+                # a wrong identity handed to the chain (a peer name cut short, addresses sharing one) then shows where C10 looks -
+                # in who is admitted and who is told 44 - and not as a 53 from a component C10 does not judge
+                denied_asks = any(plain(st_).get("last", {}).get("ip") == "d" for (_, _, st_) in beh[1:])
+                asm = Assembly(loop, 2, 1, 4, acl=not (pid == "C10" and not denied_asks and n % 2 == 0))
                 try:
                     prev = plain(beh[0][2])
                     hist = []
